@@ -6,6 +6,7 @@ import (
 	"database/sql"
 	"encoding/binary"
 	"fmt"
+	"math/rand"
 	"os"
 	"path/filepath"
 	"sort"
@@ -28,13 +29,23 @@ type item struct {
 	Inner bool     `json:"inner"`
 	Base  baseSpec `json:"base"`
 	Fp    string   `json:"fp"`
-	Kind  string   `json:"kind"` // corrupt | faults | integrity | preexist
+	Kind  string   `json:"kind"` // corrupt | faults | integrity | preexist | staletmp
 
 	// corrupt
 	File int    `json:"file,omitempty"` // index into baseMeta.Files
 	Op   string `json:"op,omitempty"`   // delete | trunc | flip
 	Off  int64  `json:"off,omitempty"`
 	Mask byte   `json:"mask,omitempty"`
+	// Unpin: restore the latest state (no TXID target) instead of the pinned
+	// TXID. Only used for deletions of files that are not the newest of the
+	// chain: then "latest" still means the replica's max TXID.
+	Unpin bool `json:"unpin,omitempty"`
+	// Thin: the replica holds only the files of the plan (what retention
+	// leaves once superseded files are gone), so no other level can stand in.
+	Thin bool `json:"thin,omitempty"`
+
+	// stale <output>.tmp
+	Tmp *tmpSpec `json:"tmp,omitempty"`
 
 	// faults (run concurrently inside one item: the retry back-off is sleep-bound)
 	Scheds []sched `json:"scheds,omitempty"`
@@ -50,6 +61,13 @@ type integSpec struct {
 	Mode string `json:"mode"` // full | quick
 	Page int    `json:"page"` // index into the list of b-tree pages of the reference image
 	Mut  string `json:"mut"`  // type | ncell | cellptr | swap | magic
+}
+
+type tmpSpec struct {
+	Variant   string `json:"variant"`   // larger | smaller | same | dir | readonly
+	Integrity string `json:"integrity"` // "", quick, full
+	Pin       bool   `json:"pin"`
+	Seed      int64  `json:"seed"`
 }
 
 type preSpec struct {
@@ -128,8 +146,18 @@ func (it *item) describe(m *baseMeta) string {
 	case "corrupt":
 		f := m.Files[it.File]
 		switch it.Op {
-		case "delete":
-			return fmt.Sprintf("base %s: delete plan file %s (%d bytes)", m.Spec.key(), f.name(), f.Size)
+		case "delete", "none":
+			target, shape := "pinned TXID", "full replica"
+			if it.Unpin {
+				target = "latest (no TXID given)"
+			}
+			if it.Thin {
+				shape = "replica thinned to the files of the plan"
+			}
+			if it.Op == "none" {
+				return fmt.Sprintf("base %s: %s, nothing deleted, restore target %s", m.Spec.key(), shape, target)
+			}
+			return fmt.Sprintf("base %s: delete plan file %s (%d bytes) from the %s, restore target %s (replica max TXID %d)", m.Spec.key(), f.name(), f.Size, shape, target, m.MaxTXID)
 		case "trunc":
 			return fmt.Sprintf("base %s: truncate plan file %s (%d bytes, end of page block at %d) to %d bytes (%s, end-of-pages marker %+d)", m.Spec.key(), f.name(), f.Size, f.MarkerEnd, it.Off, f.region(it.Off), it.Off-f.MarkerEnd)
 		default:
@@ -145,6 +173,8 @@ func (it *item) describe(m *baseMeta) string {
 		return fmt.Sprintf("base %s: b-tree page #%d mutated (%s) inside a re-encoded, checksum-valid plan file; Restore with integrity check %s", m.Spec.key(), it.Integ.Page, it.Integ.Mut, it.Integ.Mode)
 	case "preexist":
 		return fmt.Sprintf("base %s: output path pre-exists (%s) pin=%v integrity=%q corrupt-replica=%v", m.Spec.key(), it.Pre.Variant, it.Pre.Pin, it.Pre.Integrity, it.Pre.Corrupt)
+	case "staletmp":
+		return fmt.Sprintf("base %s: stale <output>.tmp present before Restore (%s) pin=%v integrity=%q", m.Spec.key(), it.Tmp.Variant, it.Tmp.Pin, it.Tmp.Integrity)
 	}
 	return it.Kind
 }
@@ -169,6 +199,8 @@ func runItem(run *vf.Run, it *item, dir string) *vf.Result {
 		runIntegrity(res, lb, it, dir)
 	case "preexist":
 		runPreexist(res, lb, it, dir)
+	case "staletmp":
+		runStaleTmp(res, lb, it, dir)
 	default:
 		res.HarnessErr = "unknown item kind " + it.Kind
 	}
@@ -251,6 +283,16 @@ func runCorrupt(res *vf.Result, lb *loadedBase, it *item, dir string) {
 		res.HarnessErr = "link tree: " + err.Error()
 		return
 	}
+	if it.Thin {
+		for _, o := range m.Files {
+			if !o.InPlan {
+				if err := os.Remove(filepath.Join(rep, o.Rel)); err != nil {
+					res.HarnessErr = "thin replica: " + err.Error()
+					return
+				}
+			}
+		}
+	}
 	target := filepath.Join(rep, f.Rel)
 	orig, err := lb.fileBytes(it.File)
 	if err != nil {
@@ -260,6 +302,7 @@ func runCorrupt(res *vf.Result, lb *loadedBase, it *item, dir string) {
 	switch it.Op {
 	case "delete":
 		err = os.Remove(target)
+	case "none":
 	case "trunc":
 		if it.Off < 0 || it.Off > int64(len(orig)) {
 			res.HarnessErr = fmt.Sprintf("offset %d outside file of %d bytes", it.Off, len(orig))
@@ -283,19 +326,33 @@ func runCorrupt(res *vf.Result, lb *loadedBase, it *item, dir string) {
 	}
 	out := filepath.Join(dir, "out")
 	opt := pinned(lb)
+	class := it.Op
+	if it.Unpin {
+		// the deleted file is not the newest of the chain, so the latest
+		// state of the replica is still the reference state
+		opt = litestream.NewRestoreOptions()
+		class += ":latest"
+	}
+	if it.Thin {
+		class += ":thin"
+	}
 	opt.OutputPath = out
 	r := litestream.NewReplicaWithClient(nil, file.NewReplicaClient(rep))
 	t0 := time.Now()
 	rerr := r.Restore(context.Background(), opt)
 	what := it.describe(m)
-	outcome := judge(res, what, it.Op, rerr, out, lb.ref)
+	outcome := judge(res, what, class, rerr, out, lb.ref)
 	res.Logf("%s -> %s (err=%v)", what, outcome, rerr)
-	res.Count(fmt.Sprintf("corrupt:%s:L%d:%s", it.Op, f.Level, outcome), 1)
+	if it.Op == "none" {
+		res.Count(fmt.Sprintf("corrupt:%s:%s", class, outcome), 1)
+	} else {
+		res.Count(fmt.Sprintf("corrupt:%s:L%d:%s", class, f.Level, outcome), 1)
+	}
 	if it.Op == "flip" && f.sizeTop(it.Off) && it.Mask >= 0x10 {
 		res.Count("obs:flip-size-prefix-top-byte-256MiB-allocation:"+outcome, 1)
 		res.Count("obs:flip-size-prefix-top-byte-256MiB-allocation:restore-ms", int(time.Since(t0).Milliseconds()))
 	}
-	if it.Op != "delete" {
+	if it.Op != "delete" && it.Op != "none" {
 		res.Count(fmt.Sprintf("region:%s:%s:%s", it.Op, f.region(it.Off), outcome), 1)
 	}
 	if rerr != nil {
@@ -782,6 +839,63 @@ func runPreexist(res *vf.Result, lb *loadedBase, it *item, dir string) {
 		res.Count("preexist:"+it.Pre.Variant+":success-untouched", 1)
 	default:
 		res.Count("preexist:"+it.Pre.Variant+":refused-untouched", 1)
+		res.Count("restore-error:"+errClass(rerr), 1)
+	}
+}
+
+// ---------------------------------------------------------------------------
+// (e) stale temp file next to the output path (left by a restore that was
+// killed): the outcome must still be an error or exactly the reference bytes.
+
+func runStaleTmp(res *vf.Result, lb *loadedBase, it *item, dir string) {
+	m := lb.meta
+	out := filepath.Join(dir, "out")
+	tmp := out + ".tmp"
+	rng := rand.New(rand.NewSource(it.Tmp.Seed))
+	fill := func(n int) []byte {
+		b := make([]byte, n)
+		rng.Read(b)
+		return b
+	}
+	var err error
+	switch it.Tmp.Variant {
+	case "larger":
+		err = os.WriteFile(tmp, fill(len(lb.ref)+m.PageSize*(1+rng.Intn(40))+rng.Intn(m.PageSize)), 0o644)
+	case "smaller":
+		err = os.WriteFile(tmp, fill(1+rng.Intn(len(lb.ref)-1)), 0o644)
+	case "same":
+		err = os.WriteFile(tmp, fill(len(lb.ref)), 0o644)
+	case "readonly":
+		err = os.WriteFile(tmp, fill(len(lb.ref)+m.PageSize*3), 0o444)
+	case "dir":
+		if err = os.Mkdir(tmp, 0o755); err == nil {
+			err = os.WriteFile(filepath.Join(tmp, "inside"), fill(100), 0o644)
+		}
+	default:
+		err = fmt.Errorf("unknown variant %s", it.Tmp.Variant)
+	}
+	if err != nil {
+		res.HarnessErr = "plant stale temp file: " + err.Error()
+		return
+	}
+	opt := litestream.NewRestoreOptions()
+	if it.Tmp.Pin {
+		opt.TXID = ltx.TXID(m.MaxTXID)
+	}
+	switch it.Tmp.Integrity {
+	case "quick":
+		opt.IntegrityCheck = litestream.IntegrityCheckQuick
+	case "full":
+		opt.IntegrityCheck = litestream.IntegrityCheckFull
+	}
+	opt.OutputPath = out
+	rerr := litestream.NewReplicaWithClient(nil, file.NewReplicaClient(m.repDir())).Restore(context.Background(), opt)
+	what := it.describe(m)
+	outcome := judge(res, what, "stale-tmp-"+it.Tmp.Variant, rerr, out, lb.ref)
+	res.Nontrivial = true
+	res.Logf("%s -> %s (err=%v)", what, outcome, rerr)
+	res.Count(fmt.Sprintf("staletmp:%s:%s", it.Tmp.Variant, outcome), 1)
+	if rerr != nil {
 		res.Count("restore-error:"+errClass(rerr), 1)
 	}
 }
